@@ -1,1 +1,1143 @@
-fn main() { eprintln!("engine not built yet"); std::process::exit(2); }
+//! hx_arts — correspondence / oracle engines of the `arts` family (HX_ENGINE selects one):
+//!
+//! * `overloads` (C24): compile a generated project, extract the ordered `MatchesWhitespaceAndString<'…', T>`
+//!   patterns from the IMPLEMENTATION's iso.ts.
+//! * `holes` (C13): put user-controlled text into one hole (schema description, string argument, generated
+//!   file header, source file path), compile, cut the embedded text out of the artifact again.
+//! * `arts` (C13): compile a generated project under one option combination; parse every `.ts` artifact with
+//!   swc (TypeScript module), every `.json` with serde_json; list every import specifier and resolve the
+//!   relative ones.
+//! * `det` (C14): the same files through the real CLI in fresh processes, with files created in reverse
+//!   order and with the declarations regrouped into other files; byte comparison.
+//! * `crash` (C08): generated / mutated / known-defect projects and byte-mutated demos through the CLI
+//!   subprocess (exit status, signal, stderr) and, where safe, in-process under catch_unwind; watch-mode
+//!   recompiles in one CompilerState.
+//!
+//! Answer convention: the FIRST field is what the Lean model must reproduce; later fields of engines `det`
+//! and `crash` (and the parse flags of `holes`) are measurements that the driver echoes.
+mod ts;
+
+use hx_common::{hex, main_loop, unhex, Rng};
+use hx_projgen::compile::*;
+use hx_projgen::env::{Env, SelKind};
+use hx_projgen::gen::{generate, Alphabet, GenOpts};
+use hx_projgen::model::*;
+use hx_projgen::mutate::mutate_single_fault;
+use hx_projgen::render::{apply_file_plan, render, FilePlan, RenderOpts};
+use hx_projgen::wire::{from_wire, to_wire};
+use std::collections::{BTreeMap, BTreeSet};
+use std::path::{Path, PathBuf};
+
+// ---------------------------------------------------------------------------------------------
+// small helpers
+// ---------------------------------------------------------------------------------------------
+
+fn hexs(s: &str) -> String {
+    hex(s.as_bytes())
+}
+
+/// comma-joined hex items; `.` = empty list (so that no field is ever empty)
+fn hexlist<'a>(items: impl IntoIterator<Item = &'a str>) -> String {
+    let v: Vec<String> = items.into_iter().map(hexs).collect();
+    if v.is_empty() {
+        ".".to_string()
+    } else {
+        v.join(",")
+    }
+}
+
+fn slug(s: &str, n: usize) -> String {
+    let mut out = String::new();
+    let mut dash = false;
+    for c in s.chars() {
+        if out.len() >= n {
+            break;
+        }
+        if c.is_ascii_alphanumeric() {
+            out.push(c.to_ascii_lowercase());
+            dash = false;
+        } else if !dash && !out.is_empty() {
+            out.push('-');
+            dash = true;
+        }
+    }
+    out.trim_end_matches('-').to_string()
+}
+
+const PANIC_TABLE: &[(&str, &str)] = &[
+    ("has overflowed its stack", "stack-overflow"),
+    ("Expected refetch strategy", "expected-refetch-strategy"),
+    ("Expected linked field to exist by now", "expected-linked-field"),
+    ("Parent context has missing variable", "missing-parent-variable"),
+    ("Expected selectable to exist", "expected-selectable-to-exist"),
+    ("is not fetchable", "type-not-fetchable"),
+    ("generated_file_header should not be a multi-line", "config-multiline-header"),
+    ("Lists are not supported here", "lists-not-supported"),
+    ("Expected to find a variable defined at the root", "variable-not-defined-at-root"),
+];
+
+/// narrow class of a panic message / of the CLI's stderr
+fn panic_sig(text: &str) -> String {
+    for (needle, sig) in PANIC_TABLE {
+        if text.contains(needle) {
+            return sig.to_string();
+        }
+    }
+    // first line after `panicked at …:`
+    let msg = match text.find("panicked at") {
+        Some(i) => {
+            let rest = &text[i..];
+            let mut lines = rest.lines();
+            let first = lines.next().unwrap_or("");
+            // new format: message on the next line; old format: `panicked at 'msg', file`
+            match lines.next() {
+                Some(l) if !l.trim().is_empty() && !l.starts_with("note:") => l.to_string(),
+                _ => first.to_string(),
+            }
+        }
+        None => text.lines().next().unwrap_or("").to_string(),
+    };
+    format!("other:{}", slug(&msg, 48))
+}
+
+/// `a/b/c.ts` + `../x` -> `a/x` (pure path arithmetic; mirrored by `IsoVerif.Core.Imports.resolve`)
+fn resolve(file: &str, spec: &str) -> String {
+    let mut comps: Vec<&str> = file.split('/').collect();
+    comps.pop();
+    for c in spec.split('/') {
+        match c {
+            "" | "." => {}
+            ".." => {
+                if comps.is_empty() || *comps.last().unwrap() == ".." {
+                    comps.push("..");
+                } else {
+                    comps.pop();
+                }
+            }
+            x => comps.push(x),
+        }
+    }
+    comps.join("/")
+}
+
+fn is_relative(spec: &str) -> bool {
+    spec.starts_with("./") || spec.starts_with("../") || spec == "." || spec == ".."
+}
+
+// ---------------------------------------------------------------------------------------------
+// dependency graph of client fields (cycle detection for the classifier of C08)
+// ---------------------------------------------------------------------------------------------
+
+/// Is there a client field / pointer that (transitively) selects itself?
+fn has_client_cycle(p: &Project) -> bool {
+    let env = Env::new(p);
+    let mut key_to_idx: BTreeMap<(String, String), usize> = BTreeMap::new();
+    for (i, (_, d)) in p.decls.iter().enumerate() {
+        if !d.is_entrypoint() {
+            key_to_idx.entry((d.parent().to_string(), d.name().to_string())).or_insert(i);
+        }
+    }
+    let mut edges: BTreeMap<usize, BTreeSet<usize>> = BTreeMap::new();
+    env.walk(|path, ty, sel, found| {
+        if let Some(f) = found {
+            if matches!(f.kind, SelKind::ClientField | SelKind::ClientPointer) {
+                if let Some(&j) = key_to_idx.get(&(ty.to_string(), sel.head().name.clone())) {
+                    edges.entry(path.decl).or_default().insert(j);
+                }
+            }
+        }
+    });
+    // DFS with colours
+    fn dfs(n: usize, edges: &BTreeMap<usize, BTreeSet<usize>>, col: &mut BTreeMap<usize, u8>) -> bool {
+        match col.get(&n) {
+            Some(1) => return true,
+            Some(2) => return false,
+            _ => {}
+        }
+        col.insert(n, 1);
+        if let Some(es) = edges.get(&n) {
+            for &m in es {
+                if dfs(m, edges, col) {
+                    return true;
+                }
+            }
+        }
+        col.insert(n, 2);
+        false
+    }
+    let mut col = BTreeMap::new();
+    (0..p.decls.len()).any(|n| dfs(n, &edges, &mut col))
+}
+
+// ---------------------------------------------------------------------------------------------
+// the CLI in a child process (own runner: creation order, timeout, normalised stderr)
+// ---------------------------------------------------------------------------------------------
+
+struct Cli {
+    code: Option<i32>,
+    signal: Option<i32>,
+    timed_out: bool,
+    /// stderr+stdout with the temp dir and durations removed
+    text: String,
+    /// files below a `__isograph` directory, keyed by path relative to the project directory
+    artifacts: BTreeMap<String, Vec<u8>>,
+}
+
+impl Cli {
+    fn class(&self) -> String {
+        if self.timed_out {
+            return "timeout".into();
+        }
+        match (self.code, self.signal) {
+            (Some(0), _) => "ok".into(),
+            (Some(1), _) => "diagnostics".into(),
+            (Some(101), _) => "panic".into(),
+            (Some(n), _) => format!("exit:{n}"),
+            (None, Some(s)) => format!("signal:{s}"),
+            (None, None) => "unknown".into(),
+        }
+    }
+}
+
+fn normalise_text(s: &str, dir: &str) -> String {
+    let s = s.replace(dir, "<DIR>");
+    let mut out = String::new();
+    for line in s.lines() {
+        if line.contains("Compilation took") {
+            continue;
+        }
+        if line.contains("Success! Compiled") {
+            // drop the duration at the end
+            match line.rfind(", in ") {
+                Some(i) => out.push_str(&line[..i]),
+                None => out.push_str(line),
+            }
+        } else {
+            out.push_str(line);
+        }
+        out.push('\n');
+    }
+    out
+}
+
+fn cli_bin() -> Result<PathBuf, String> {
+    use std::sync::OnceLock;
+    static BIN: OnceLock<Result<PathBuf, String>> = OnceLock::new();
+    BIN.get_or_init(|| cli_binary(false)).clone()
+}
+
+fn run_cli(files: &Files, reverse: bool) -> Result<Cli, String> {
+    let bin = cli_bin()?;
+    let tmp = TempDir::new();
+    let mut order: Vec<(&PathBuf, &Vec<u8>)> = files.iter().collect();
+    if reverse {
+        order.reverse();
+    }
+    for (rel, bytes) in order {
+        let p = tmp.path().join(rel);
+        if let Some(parent) = p.parent() {
+            std::fs::create_dir_all(parent).map_err(|e| e.to_string())?;
+        }
+        std::fs::write(&p, bytes).map_err(|e| e.to_string())?;
+    }
+    let out_path = tmp.path().join(".hx_stdout");
+    let err_path = tmp.path().join(".hx_stderr");
+    let mut child = std::process::Command::new(&bin)
+        .args(["--config", "./isograph.config.json"])
+        .current_dir(tmp.path())
+        .env("NO_COLOR", "1")
+        .env_remove("RUST_LOG")
+        .env_remove("RUST_BACKTRACE")
+        .stdin(std::process::Stdio::null())
+        .stdout(std::fs::File::create(&out_path).map_err(|e| e.to_string())?)
+        .stderr(std::fs::File::create(&err_path).map_err(|e| e.to_string())?)
+        .spawn()
+        .map_err(|e| format!("cannot run {}: {e}", bin.display()))?;
+    let t0 = std::time::Instant::now();
+    let limit = std::time::Duration::from_secs(
+        std::env::var("HX_CLI_TIMEOUT_S").ok().and_then(|s| s.parse().ok()).unwrap_or(120),
+    );
+    let mut timed_out = false;
+    let status = loop {
+        match child.try_wait().map_err(|e| e.to_string())? {
+            Some(st) => break st,
+            None => {
+                if t0.elapsed() > limit {
+                    let _ = child.kill();
+                    timed_out = true;
+                    break child.wait().map_err(|e| e.to_string())?;
+                }
+                std::thread::sleep(std::time::Duration::from_millis(3));
+            }
+        }
+    };
+    use std::os::unix::process::ExitStatusExt;
+    let signal = status.signal();
+    let mut text = String::from_utf8_lossy(&std::fs::read(&err_path).unwrap_or_default()).to_string();
+    text.push_str(&String::from_utf8_lossy(&std::fs::read(&out_path).unwrap_or_default()));
+    let dir = tmp.path().to_string_lossy().to_string();
+    let mut artifacts = BTreeMap::new();
+    for (k, v) in read_tree(tmp.path()) {
+        if k.split('/').any(|c| c == "__isograph") && !files.contains_key(&PathBuf::from(&k)) {
+            artifacts.insert(k, v);
+        }
+    }
+    Ok(Cli { code: status.code(), signal, timed_out, text: normalise_text(&text, &dir), artifacts })
+}
+
+/// in-process result as a short class
+fn inproc_class(r: &CompileResult) -> String {
+    match r {
+        CompileResult::Ok(_) => "ok".into(),
+        CompileResult::Diagnostics(_) => "diagnostics".into(),
+        CompileResult::Panic(m) => format!("panic:{}", panic_sig(m)),
+    }
+}
+
+// ---------------------------------------------------------------------------------------------
+// engine `overloads` (C24)
+// ---------------------------------------------------------------------------------------------
+
+/// the ordered patterns `MatchesWhitespaceAndString<'…', T>` of an iso.ts
+fn extract_patterns(iso_ts: &str) -> Vec<String> {
+    let needle = "MatchesWhitespaceAndString<'";
+    let mut out = vec![];
+    let mut rest = iso_ts;
+    while let Some(i) = rest.find(needle) {
+        let after = &rest[i + needle.len()..];
+        match after.find("', T>") {
+            Some(j) => {
+                out.push(after[..j].to_string());
+                rest = &after[j..];
+            }
+            None => break,
+        }
+    }
+    out
+}
+
+fn header_rewrite(files: &Files, p: &Project, variant: &str) -> Files {
+    let mut out = files.clone();
+    for (_, d) in &p.decls {
+        let canon = format!("{} {}.{}", d.keyword(), d.parent(), d.name());
+        let non = match variant {
+            "twospace" => format!("{}  {}.{}", d.keyword(), d.parent(), d.name()),
+            "dotspace" => format!("{} {} . {}", d.keyword(), d.parent(), d.name()),
+            "tabsep" => format!("{}\t{}.{}", d.keyword(), d.parent(), d.name()),
+            _ => canon.clone(),
+        };
+        for (path, bytes) in out.iter_mut() {
+            let name = path.to_string_lossy();
+            if name.ends_with(".graphql") || name.ends_with(".json") {
+                continue;
+            }
+            if let Ok(s) = std::str::from_utf8(bytes) {
+                if s.contains(&canon) {
+                    *bytes = s.replace(&canon, &non).into_bytes();
+                }
+            }
+        }
+    }
+    out
+}
+
+fn run_overloads(f: &[&str]) -> String {
+    let (variant, wire) = match f {
+        ["ovl", w] => ("canonical", *w),
+        ["ovlnc", v, w] => (*v, *w),
+        _ => return "bad-request".into(),
+    };
+    let Some(p) = from_wire(wire) else { return "bad-wire".into() };
+    let files = render(&p, &RenderOpts::default());
+    let files = if variant == "canonical" { files } else { header_rewrite(&files, &p, variant) };
+    let out = compile_files(&files);
+    match &out.result {
+        CompileResult::Ok(_) => {
+            let Some(iso) = out.artifacts.get("iso.ts") else { return "no-iso-ts".into() };
+            let pats = extract_patterns(&String::from_utf8_lossy(iso));
+            format!("ok\t{}", hexlist(pats.iter().map(|s| s.as_str())))
+        }
+        CompileResult::Diagnostics(ds) => format!("rejected\t{}", hexs(&ds[0].message)),
+        CompileResult::Panic(m) => format!("panic\t{}", panic_sig(m)),
+    }
+}
+
+fn prefix_opts() -> GenOpts {
+    GenOpts { pct_prefix_names: 100, max_decls: 8, pct_pointer: 35, pct_entrypoint: 90, random_options: false, ..GenOpts::default() }
+}
+
+fn gen_overloads(r: &mut Rng, i: u64) -> Vec<String> {
+    let p = generate(r, &prefix_opts());
+    if i % 10 == 9 {
+        let v = *r.pick(&["twospace", "dotspace", "tabsep"]);
+        vec![format!("ovlnc\t{v}\t{}", to_wire(&p))]
+    } else {
+        vec![format!("ovl\t{}", to_wire(&p))]
+    }
+}
+
+// ---------------------------------------------------------------------------------------------
+// engine `holes` (C13)
+// ---------------------------------------------------------------------------------------------
+
+fn bmp_utf8(b: &[u8]) -> Option<&str> {
+    let s = std::str::from_utf8(b).ok()?;
+    if b.iter().any(|&x| x >= 0xF0) {
+        return None;
+    }
+    Some(s)
+}
+
+/// texts for which `clean_block_string_literal` is the identity and the schema lexer accepts the block string
+fn desc_domain(b: &[u8]) -> bool {
+    let Some(s) = bmp_utf8(b) else { return false };
+    if s.is_empty() || s.chars().any(|c| c == '"' || c == '\\' || c == '\r' || (c < ' ' && c != '\n' && c != '\t')) {
+        return false;
+    }
+    s.split('\n').all(|l| !l.is_empty() && !l.starts_with(' ') && !l.starts_with('\t') && !l.trim().is_empty())
+}
+
+/// raw text between the quotes of an iso string literal: StringCharacters and the escapes of the lexer,
+/// minus what would end the surrounding JS template literal of the source file
+fn strarg_domain(b: &[u8]) -> bool {
+    let Some(s) = bmp_utf8(b) else { return false };
+    let cs: Vec<char> = s.chars().collect();
+    let mut i = 0;
+    while i < cs.len() {
+        let c = cs[i];
+        if c == '\\' {
+            match cs.get(i + 1) {
+                Some('"') | Some('\\') | Some('/') | Some('b') | Some('f') | Some('n') | Some('r') | Some('t') => i += 2,
+                Some('u') => {
+                    if i + 5 < cs.len() + 0 && cs[i + 2..i + 6].iter().all(|h| h.is_ascii_hexdigit()) {
+                        i += 6
+                    } else {
+                        return false;
+                    }
+                }
+                _ => return false,
+            }
+            continue;
+        }
+        if c == '"' || c == '`' || c == '\n' || c == '\r' || (c < ' ' && c != '\t') {
+            return false;
+        }
+        i += 1;
+    }
+    true
+}
+
+fn header_domain(b: &[u8]) -> bool {
+    match std::str::from_utf8(b) {
+        Ok(s) => !s.contains('\n') && !s.contains('\0'),
+        Err(_) => false,
+    }
+}
+
+fn path_domain(b: &[u8]) -> bool {
+    match std::str::from_utf8(b) {
+        Ok(s) => {
+            !s.is_empty()
+                && s.len() <= 100
+                && !s.starts_with('.')
+                && !s.contains('/')
+                && !s.contains('\0')
+                && !s.contains("__isograph")
+        }
+        Err(_) => false,
+    }
+}
+
+fn hole_files(kind: &str, text: &str) -> Files {
+    let mut files = Files::new();
+    let header = if kind == "header" { Some(text) } else { None };
+    let mut opts = serde_json::Map::new();
+    if let Some(h) = header {
+        opts.insert("generated_file_header".into(), serde_json::json!(h));
+    }
+    let cfg = serde_json::json!({"project_root": "./src", "schema": "./schema.graphql", "options": opts});
+    files.insert(PathBuf::from("isograph.config.json"), serde_json::to_vec_pretty(&cfg).unwrap());
+    let schema = if kind == "desc" {
+        format!("type Query {{\n  \"\"\"\n{}\n  \"\"\"\n  f(s: String): String\n}}\n", text)
+    } else {
+        "type Query {\n  f(s: String): String\n}\n".to_string()
+    };
+    files.insert(PathBuf::from("schema.graphql"), schema.into_bytes());
+    let sel = if kind == "strarg" { format!("f(s: \"{}\")", text) } else { "f".to_string() };
+    let src = format!(
+        "import {{ iso }} from '@iso';\nexport const H = iso(`\n  field Query.H {{\n    {sel}\n  }}\n`)(() => null);\niso(`entrypoint Query.H`);\n"
+    );
+    let stem = if kind == "path" { text } else { "a" };
+    files.insert(PathBuf::from(format!("src/{stem}.ts")), src.into_bytes());
+    files
+}
+
+fn between<'a>(s: &'a str, prefix: &str, suffix_from_end: &str) -> Option<&'a str> {
+    let i = s.find(prefix)? + prefix.len();
+    let j = s.rfind(suffix_from_end)?;
+    if j < i {
+        return None;
+    }
+    Some(&s[i..j])
+}
+
+fn flag(b: bool) -> &'static str {
+    if b {
+        "1"
+    } else {
+        "0"
+    }
+}
+
+fn run_holes(f: &[&str]) -> String {
+    let ["hole", kind, h] = f else { return "bad-request".into() };
+    let Some(bytes) = unhex(h) else { return "bad-hex".into() };
+    let inside = match *kind {
+        "desc" => desc_domain(&bytes),
+        "strarg" => strarg_domain(&bytes),
+        "header" => header_domain(&bytes),
+        "path" => path_domain(&bytes),
+        _ => return "bad-kind".into(),
+    };
+    if !inside {
+        return "outside".into();
+    }
+    let text = std::str::from_utf8(&bytes).unwrap();
+    let out = compile_files(&hole_files(kind, text));
+    let arts = match &out.result {
+        CompileResult::Ok(_) => &out.artifacts,
+        CompileResult::Diagnostics(ds) => return format!("rejected\t{}", hexs(&ds[0].message)),
+        CompileResult::Panic(m) => return format!("panic\t{}", panic_sig(m)),
+    };
+    let get = |name: &str| arts.get(name).map(|b| String::from_utf8_lossy(b).to_string()).unwrap_or_default();
+    match *kind {
+        "desc" => {
+            let a = get("Query/H/param_type.ts");
+            match between(&a, "    /**\n", "\n    */\n    readonly f:") {
+                Some(e) => format!("ok\t{}\t{}", hexs(e), flag(ts::parse(&a).ok)),
+                None => "no-hole".into(),
+            }
+        }
+        "strarg" => {
+            let q = get("Query/H/query_text.ts");
+            let n = get("Query/H/normalization_ast.ts");
+            let e1 = between(&q, "f(s: \"", "\"),\\\n}';");
+            let e2 = between(&n, "{ kind: \"String\", value: \"", "\" },\n");
+            match (e1, e2) {
+                (Some(a), Some(b)) => {
+                    format!("ok\t{}\t{}\t{}{}", hexs(a), hexs(b), flag(ts::parse(&q).ok), flag(ts::parse(&n).ok))
+                }
+                _ => "no-hole".into(),
+            }
+        }
+        "header" => {
+            let a = get("iso.ts");
+            match between(&a, "// ", "\nimport type { IsographEntrypoint } from '@isograph/react';\n") {
+                Some(e) => format!("ok\t{}\t{}", hexs(e), flag(ts::parse(&a).ok)),
+                None => "no-hole".into(),
+            }
+        }
+        "path" => {
+            let a = get("Query/H/resolver_reader.ts");
+            match between(&a, "import { H as resolver } from '", "';\n\nconst readerAst") {
+                Some(e) => format!("ok\t{}\t{}", hexs(e), flag(ts::parse(&a).ok)),
+                None => "no-hole".into(),
+            }
+        }
+        _ => "bad-kind".into(),
+    }
+}
+
+const HOLE_ALPHABET: &[&str] = &[
+    "a", "b", "Z", "0", "_", " ", " ", "*", "/", "*/", "/*", "//", "'", "'", "\"", "\\", "\\\"", "\\\\", "\\n", "\\u0041",
+    "`", "$", "${", "{", "}", "\n", "\n", "\r", "\t", "\u{2028}", "\u{2029}", "é", "漢", "😀", "<", ">", "-->", "*\\/", ".", "@",
+];
+
+fn gen_holes(r: &mut Rng, i: u64) -> Vec<String> {
+    let kind = ["desc", "strarg", "header", "path"][(i % 4) as usize];
+    // mostly inside the domain: filter the alphabet per kind, sometimes use all of it
+    let all = r.chance(1, 8);
+    let allowed: Vec<&str> = HOLE_ALPHABET
+        .iter()
+        .copied()
+        .filter(|s| {
+            all || match kind {
+                "desc" => !s.contains('"') && !s.contains('\\') && !s.contains('\r') && *s != "😀" && *s != "\t",
+                "strarg" => {
+                    (!s.contains('"') || *s == "\\\"") && (!s.contains('\\') || s.len() >= 2 && *s != "*\\/") && !s.contains('\n') && !s.contains('\r') && *s != "`" && *s != "😀"
+                }
+                "header" => !s.contains('\n'),
+                _ => !s.contains('/') && *s != ".",
+            }
+        })
+        .collect();
+    let n = r.range(1, 8);
+    let mut s = String::new();
+    for _ in 0..n {
+        s.push_str(r.pick(&allowed));
+    }
+    if kind == "desc" && !all {
+        // no line may be blank or start with white space
+        s = s.split('\n').map(|l| format!("x{}", l)).collect::<Vec<_>>().join("\n");
+    }
+    vec![format!("hole\t{kind}\t{}", hexs(&s))]
+}
+
+// ---------------------------------------------------------------------------------------------
+// engine `arts` (C13)
+// ---------------------------------------------------------------------------------------------
+
+/// why a `.ts` artifact does not parse: narrow cause used as the finding signature
+fn ts_failure_cause(path: &str, content: &str) -> &'static str {
+    let file = path.rsplit('/').next().unwrap_or(path);
+    if file == "query_text.ts" || file.starts_with("__refetch__") {
+        // `export default '<operation text>';` — an apostrophe inside the text ends the string
+        if let Some(body) = between(content, "export default '", "';") {
+            if body.contains('\'') {
+                return "single-quote-in-operation-text";
+            }
+        }
+        if let Some(i) = content.find("const queryText = '") {
+            let rest = &content[i + "const queryText = '".len()..];
+            if let Some(j) = rest.find("';\n") {
+                if rest[..j].contains('\'') {
+                    return "single-quote-in-operation-text";
+                }
+            }
+        }
+    }
+    if content.matches("*/").count() > content.matches("/**").count() + content.matches("/* ").count() {
+        return "doc-comment-terminator";
+    }
+    "other"
+}
+
+fn analyse_artifacts(art_dir: &str, artifacts: &BTreeMap<String, Vec<u8>>, sources: &[String]) -> String {
+    // every path relative to the project directory
+    let mut paths: Vec<String> = vec![];
+    let mut imports: Vec<(String, String)> = vec![];
+    let mut failures: Vec<String> = vec![];
+    for (rel, bytes) in artifacts {
+        let path = format!("{art_dir}/{rel}");
+        paths.push(path.clone());
+        if rel.ends_with(".ts") {
+            match std::str::from_utf8(bytes) {
+                Err(_) => failures.push(format!("ts-parse:not-utf8:{rel}")),
+                Ok(s) => {
+                    let p = ts::parse(s);
+                    if p.ok {
+                        for spec in p.imports {
+                            imports.push((path.clone(), spec));
+                        }
+                    } else {
+                        failures.push(format!("ts-parse:{}:{}", ts_failure_cause(rel, s), rel.rsplit('/').next().unwrap()));
+                    }
+                }
+            }
+        } else if rel.ends_with(".json") {
+            if serde_json::from_slice::<serde_json::Value>(bytes).is_err() {
+                let cause = if bytes.starts_with(b"// ") { "header-comment" } else { "other" };
+                failures.push(format!("json-parse:{cause}:{}", rel.rsplit('/').next().unwrap()));
+            }
+        } else {
+            failures.push(format!("unknown-artifact-kind:{rel}"));
+        }
+    }
+    // unknown causes first, so that a known finding never hides a new failure on the same case
+    failures.sort_by_key(|f| (!f.contains(":other:"), f.clone()));
+    let rel_imports: Vec<&(String, String)> = imports.iter().filter(|(_, s)| is_relative(s)).collect();
+    let resolved: Vec<String> = rel_imports.iter().map(|(f, s)| resolve(f, s)).collect();
+    let bare: BTreeSet<&str> = imports.iter().filter(|(_, s)| !is_relative(s)).map(|(_, s)| s.as_str()).collect();
+    format!(
+        "ok\t{}\t{}\t{}\t{}\t{}\t{}\t{}",
+        hexlist(resolved.iter().map(|s| s.as_str())),
+        hexlist(paths.iter().map(|s| s.as_str())),
+        hexlist(sources.iter().map(|s| s.as_str())),
+        hexlist(rel_imports.iter().map(|(f, _)| f.as_str())),
+        hexlist(rel_imports.iter().map(|(_, s)| s.as_str())),
+        hexlist(failures.iter().map(|s| s.as_str())),
+        hexlist(bare.iter().copied()),
+    )
+}
+
+fn run_arts(f: &[&str]) -> String {
+    match f {
+        ["arts", wire] => {
+            let Some(p) = from_wire(wire) else { return "bad-wire".into() };
+            let files = render(&p, &RenderOpts::default());
+            let out = compile_files(&files);
+            match &out.result {
+                CompileResult::Ok(_) => {
+                    let sources: Vec<String> = files.keys().map(|k| k.to_string_lossy().to_string()).collect();
+                    analyse_artifacts(&p.options.artifact_dir(), &out.artifacts, &sources)
+                }
+                CompileResult::Diagnostics(ds) => format!("rejected\t{}", hexs(&ds[0].message)),
+                CompileResult::Panic(m) => format!("panic\t{}", panic_sig(m)),
+            }
+        }
+        ["artsdemo", name] => {
+            let Some(files) = load_demo(name) else { return "no-demo".into() };
+            let out = compile_files(&files);
+            match &out.result {
+                CompileResult::Ok(_) => {
+                    let cfg: serde_json::Value =
+                        serde_json::from_slice(files.get(&PathBuf::from("isograph.config.json")).unwrap()).unwrap();
+                    let base = cfg
+                        .get("artifact_directory")
+                        .or_else(|| cfg.get("project_root"))
+                        .and_then(|v| v.as_str())
+                        .unwrap_or("src")
+                        .trim_start_matches("./")
+                        .trim_end_matches('/')
+                        .to_string();
+                    let sources: Vec<String> = files.keys().map(|k| k.to_string_lossy().to_string()).collect();
+                    analyse_artifacts(&format!("{base}/__isograph"), &out.artifacts, &sources)
+                }
+                CompileResult::Diagnostics(ds) => format!("rejected\t{}", hexs(&ds[0].message)),
+                CompileResult::Panic(m) => format!("panic\t{}", panic_sig(m)),
+            }
+        }
+        _ => "bad-request".into(),
+    }
+}
+
+/// the 48 option combinations: module kind × file extensions × header × persisted documents × no_babel_transform
+fn option_combo(k: u64) -> Options {
+    let mut o = Options::default();
+    o.module = if k & 1 == 0 { ModuleKind::EsModule } else { ModuleKind::CommonJs };
+    o.include_file_extensions_in_import_statements = (k >> 1) & 1 == 1;
+    o.generated_file_header = if (k >> 2) & 1 == 1 { Some("generated; do not edit */ 'x' \"y\"".to_string()) } else { None };
+    o.no_babel_transform = (k >> 3) & 1 == 1;
+    o.persisted_documents = match (k >> 4) % 3 {
+        0 => None,
+        1 => Some(PersistedDocuments { file: None, algorithm: HashAlgorithm::Md5, include_extra_info: false }),
+        _ => Some(PersistedDocuments { file: None, algorithm: HashAlgorithm::Sha256, include_extra_info: true }),
+    };
+    o
+}
+
+fn gen_arts(r: &mut Rng, i: u64) -> Vec<String> {
+    // every 8th case: descriptions and strings from the risky alphabet (comment terminators, quotes)
+    let risky = i % 8 == 7;
+    let o = GenOpts {
+        random_options: false,
+        strings: if risky { Alphabet::Risky } else { Alphabet::Punct },
+        pct_descriptions: if risky { 80 } else { 40 },
+        ..GenOpts::default()
+    };
+    let mut p = generate(r, &o);
+    let keep_root = p.options.project_root.clone();
+    let keep_art = p.options.artifact_directory.clone();
+    p.options = option_combo(i % 48);
+    p.options.project_root = keep_root;
+    p.options.artifact_directory = keep_art;
+    if r.chance(1, 4) {
+        p.options.artifact_directory = Some("generated/out".to_string());
+    }
+    vec![format!("arts\t{}", to_wire(&p))]
+}
+
+// ---------------------------------------------------------------------------------------------
+// engine `det` (C14)
+// ---------------------------------------------------------------------------------------------
+
+/// artifacts with the one line that legitimately names the source file removed
+fn strip_resolver_import(a: &BTreeMap<String, Vec<u8>>) -> BTreeMap<String, Vec<u8>> {
+    a.iter()
+        .map(|(k, v)| {
+            let s = String::from_utf8_lossy(v);
+            let kept: Vec<&str> = s.split('\n').filter(|l| !(l.starts_with("import { ") && l.contains(" as resolver } from '"))).collect();
+            (k.clone(), kept.join("\n").into_bytes())
+        })
+        .collect()
+}
+
+fn first_diff(a: &BTreeMap<String, Vec<u8>>, b: &BTreeMap<String, Vec<u8>>) -> Option<String> {
+    for (k, v) in a {
+        match b.get(k) {
+            None => return Some(format!("missing:{}", k.rsplit('/').next().unwrap())),
+            Some(w) if w != v => return Some(format!("bytes:{}", k.rsplit('/').next().unwrap())),
+            _ => {}
+        }
+    }
+    for k in b.keys() {
+        if !a.contains_key(k) {
+            return Some(format!("extra:{}", k.rsplit('/').next().unwrap()));
+        }
+    }
+    None
+}
+
+fn run_det(f: &[&str]) -> String {
+    let (op, wire, seed) = match f {
+        ["det", w, s] => ("det", *w, s.parse::<u64>().unwrap_or(0)),
+        ["detdiag", w] => ("detdiag", *w, 0),
+        ["detdup", w] => ("detdup", *w, 0),
+        _ => return "bad-request".into(),
+    };
+    let Some(mut p) = from_wire(wire) else { return "bad-wire".into() };
+    if op == "detdup" {
+        // the same `Type.field` once more, in a second file
+        let Some((path, d)) = p.decls.iter().find(|(_, d)| !d.is_entrypoint()).cloned() else { return "no-field".into() };
+        let root = p.options.project_root.trim_start_matches("./").trim_end_matches('/').to_string();
+        let other = format!("{root}/zz_dup_{}.ts", d.name());
+        if other == path {
+            return "no-field".into();
+        }
+        p.decls.push((other, d));
+    }
+    let files = render(&p, &RenderOpts::default());
+    let runs = if op == "det" { 3 } else { 5 };
+    let mut outs: Vec<Cli> = vec![];
+    for k in 0..runs {
+        match run_cli(&files, k == runs - 1) {
+            Ok(c) => outs.push(c),
+            Err(e) => return format!("cli-error\t{}", hexs(&e)),
+        }
+    }
+    let c0 = outs[0].class();
+    for (k, o) in outs.iter().enumerate().skip(1) {
+        if o.class() != c0 {
+            return format!("differ:exit-class\trun={k}\t{}\t{}", c0, o.class());
+        }
+        if let Some(d) = first_diff(&outs[0].artifacts, &o.artifacts) {
+            return format!("differ:artifacts:{d}\trun={k}");
+        }
+        if c0 != "ok" && o.text != outs[0].text {
+            let all_multi = outs.iter().all(|o| {
+                o.text.contains("Multiple definitions") || o.text.contains("multiple definitions") || o.text.contains("defined multiple")
+            });
+            let class = if all_multi { "duplicate-definition-location" } else { "text" };
+            return format!("differ:diagnostics:{class}\trun={k}");
+        }
+    }
+    let mut variants = runs;
+    if op == "det" && c0 == "ok" {
+        // regroup the declarations into other files: everything but the resolver import line must stay
+        let base = strip_resolver_import(&outs[0].artifacts);
+        let art = p.options.artifact_dir();
+        for plan in [FilePlan::OnePerDecl, FilePlan::Single("all_in_one.tsx".to_string()), FilePlan::Rename, FilePlan::Shuffle { seed }] {
+            let q = apply_file_plan(&p, &plan);
+            let o = compile_files(&render(&q, &RenderOpts::default()));
+            if !o.result.is_ok() {
+                return format!("differ:plan-rejected\t{:?}", plan).replace(' ', "");
+            }
+            let arts: BTreeMap<String, Vec<u8>> = o.artifacts.into_iter().map(|(k, v)| (format!("{art}/{k}"), v)).collect();
+            if let Some(d) = first_diff(&base, &strip_resolver_import(&arts)) {
+                return format!("differ:file-plan:{d}\t{:?}", plan).replace(' ', "");
+            }
+            variants += 1;
+        }
+    }
+    format!("same\t{c0}\tfiles={}\tvariants={variants}", outs[0].artifacts.len())
+}
+
+fn gen_det(r: &mut Rng, i: u64) -> Vec<String> {
+    let p = generate(r, &GenOpts::default());
+    match i % 10 {
+        7 | 8 => match mutate_single_fault(r, &p) {
+            Some((q, _)) => vec![format!("detdiag\t{}", to_wire(&q))],
+            None => vec![format!("det\t{}\t{}", to_wire(&p), r.next() % 1000)],
+        },
+        9 => vec![format!("detdup\t{}", to_wire(&p))],
+        _ => vec![format!("det\t{}\t{}", to_wire(&p), r.next() % 1000)],
+    }
+}
+
+// ---------------------------------------------------------------------------------------------
+// engine `crash` (C08)
+// ---------------------------------------------------------------------------------------------
+
+fn crash_class(c: &Cli, cyclic: bool) -> String {
+    match c.class().as_str() {
+        "ok" => {
+            if c.artifacts.keys().any(|k| k.ends_with("/iso.ts")) {
+                "nopanic".into()
+            } else {
+                "silent:no-artifacts".into()
+            }
+        }
+        "diagnostics" => {
+            if c.text.contains("Error") || c.text.contains("ERROR") || c.text.contains("error") {
+                "nopanic".into()
+            } else {
+                "silent:no-diagnostic".into()
+            }
+        }
+        "panic" => format!("panic:{}", panic_sig(&c.text)),
+        "timeout" => "timeout".into(),
+        s if s.starts_with("signal:") => {
+            if c.text.contains("has overflowed its stack") {
+                if cyclic {
+                    "cyclic-client-fields-stack-overflow".into()
+                } else {
+                    "panic:stack-overflow".into()
+                }
+            } else {
+                s.to_string()
+            }
+        }
+        s => format!("abnormal-{s}"),
+    }
+}
+
+fn stream_opts(stream: &str) -> GenOpts {
+    let d = GenOpts::default();
+    match stream {
+        "cycle" => GenOpts { allow_cycles: true, ..d },
+        "lwrs" => GenOpts { loadable_without_refetch_strategy: true, pct_loadable: 70, ..d },
+        "ptu" => GenOpts { pointer_to_unfetchable: true, pct_pointer: 60, ..d },
+        "lnr" => GenOpts { loadable_with_nested_refetch: true, pct_loadable: 60, pct_special_fields: 40, ..d },
+        "vas" => GenOpts { vars_to_client_fields_under_as: true, pct_variable: 80, ..d },
+        "xtp" => GenOpts { select_fields_with_cross_type_pointers: true, pct_pointer: 50, ..d },
+        "pv" => GenOpts { pointer_variables: true, pct_pointer: 60, pct_variable: 70, ..d },
+        "upv" => GenOpts { unparseable_values: true, ..d },
+        _ => d,
+    }
+}
+
+fn demo_file_list(files: &Files) -> Vec<PathBuf> {
+    files.keys().cloned().collect()
+}
+
+fn apply_byte_mutation(bytes: &mut Vec<u8>, op: &str, off: usize, data: &[u8]) {
+    let off = if bytes.is_empty() { 0 } else { off % (bytes.len() + 1) };
+    match op {
+        "ins" => {
+            let tail = bytes.split_off(off);
+            bytes.extend_from_slice(data);
+            bytes.extend_from_slice(&tail);
+        }
+        "del" => {
+            let n = data.len().max(1).min(bytes.len().saturating_sub(off));
+            bytes.drain(off..off + n);
+        }
+        "rep" => {
+            for (k, b) in data.iter().enumerate() {
+                if off + k < bytes.len() {
+                    bytes[off + k] = *b;
+                }
+            }
+        }
+        "dup" => {
+            let n = (data.len().max(1) * 8).min(bytes.len().saturating_sub(off));
+            let chunk = bytes[off..off + n].to_vec();
+            let tail = bytes.split_off(off);
+            bytes.extend_from_slice(&chunk);
+            bytes.extend_from_slice(&tail);
+        }
+        "trunc" => bytes.truncate(off),
+        _ => {}
+    }
+}
+
+fn run_crash(f: &[&str]) -> String {
+    match f {
+        [op @ ("cm" | "co"), stream, wire] => {
+            let _ = op;
+            let Some(p) = from_wire(wire) else { return "bad-wire".into() };
+            let cyclic = has_client_cycle(&p);
+            let files = render(&p, &RenderOpts::default());
+            let cli = match run_cli(&files, false) {
+                Ok(c) => c,
+                Err(e) => return format!("cli-error\t{}", hexs(&e)),
+            };
+            let main = crash_class(&cli, cyclic);
+            // in-process, unless a stack overflow would take the harness down
+            let inproc = if cyclic || main.contains("stack-overflow") {
+                "skipped".to_string()
+            } else {
+                inproc_class(&compile_files(&files).result)
+            };
+            let agree = match (cli.class().as_str(), inproc.as_str()) {
+                (_, "skipped") => true,
+                ("ok", "ok") | ("diagnostics", "diagnostics") => true,
+                ("panic", i) => i.starts_with("panic:") && (i == main || main.starts_with("panic:other:")),
+                _ => false,
+            };
+            let main = if agree { main } else { format!("mismatch:cli={}:inproc={}", cli.class(), inproc) };
+            format!("{main}\tstream={stream}\tcli={}\tinproc={}\tcyclic={}", cli.class(), inproc, flag(cyclic))
+        }
+        ["raw", demo, file_idx, op, off, data] => {
+            let Some(mut files) = load_demo(demo) else { return "no-demo".into() };
+            let list = demo_file_list(&files);
+            let idx: usize = file_idx.parse().unwrap_or(0) % list.len();
+            let off: usize = off.parse().unwrap_or(0);
+            let data = unhex(data).unwrap_or_default();
+            let target = list[idx].clone();
+            apply_byte_mutation(files.get_mut(&target).unwrap(), op, off, &data);
+            let cli = match run_cli(&files, false) {
+                Ok(c) => c,
+                Err(e) => return format!("cli-error\t{}", hexs(&e)),
+            };
+            let main = crash_class(&cli, false);
+            format!("{main}\tstream=raw\tcli={}\tfile={}", cli.class(), target.to_string_lossy().replace(['\t', ' '], "_"))
+        }
+        ["watch", wire, seed] => {
+            let Some(p) = from_wire(wire) else { return "bad-wire".into() };
+            if has_client_cycle(&p) {
+                return "skipped-cyclic".into();
+            }
+            let seed: u64 = seed.parse().unwrap_or(0);
+            let mut r = Rng::new(seed, 0);
+            let base = render(&p, &RenderOpts::default());
+            let mutant = mutate_single_fault(&mut r, &p).map(|(q, _)| render(&q, &RenderOpts::default()));
+            let other_layout = render(&apply_file_plan(&p, &FilePlan::Rename), &RenderOpts::default());
+            let mut s = Session::new(&base);
+            let mut steps: Vec<String> = vec![];
+            let mut bad: Option<String> = None;
+            let mut note = |o: &Outcome, steps: &mut Vec<String>, bad: &mut Option<String>| {
+                let c = inproc_class(&o.result);
+                if c.starts_with("panic") && bad.is_none() {
+                    *bad = Some(c.clone());
+                }
+                if c == "ok" && !o.artifacts.contains_key("iso.ts") && bad.is_none() {
+                    *bad = Some("silent:no-artifacts".into());
+                }
+                steps.push(c);
+            };
+            let o = s.compile();
+            note(&o, &mut steps, &mut bad);
+            let mut current = base.clone();
+            let mut targets: Vec<&Files> = vec![];
+            if let Some(m) = &mutant {
+                targets.push(m);
+            }
+            targets.push(&other_layout);
+            targets.push(&base);
+            for t in targets {
+                if s.state().is_none() {
+                    // a panic dropped the state: the real watch loop would have died; stop here
+                    break;
+                }
+                let cfg = PathBuf::from(CONFIG_FILE);
+                if t.get(&cfg) != current.get(&cfg) {
+                    continue;
+                }
+                let mut events = vec![];
+                for (k, v) in t.iter() {
+                    if current.get(k) != Some(v) {
+                        events.push((SourceEventKind::CreateOrModify(s.dir().join(k)), kind_of(k)));
+                    }
+                }
+                for k in current.keys() {
+                    if !t.contains_key(k) {
+                        events.push((SourceEventKind::Remove(s.dir().join(k)), kind_of(k)));
+                    }
+                }
+                s.replace_sources(t);
+                match s.update_sources(&events) {
+                    Ok(()) => {}
+                    Err(msgs) => {
+                        let m = msgs.join(" | ");
+                        if m.starts_with("panic:") {
+                            bad.get_or_insert(format!("panic:{}", panic_sig(&m)));
+                        }
+                        steps.push("update-error".into());
+                    }
+                }
+                current = t.clone();
+                if s.state().is_none() {
+                    break;
+                }
+                let o = s.compile();
+                note(&o, &mut steps, &mut bad);
+            }
+            format!("{}\tstream=watch\tsteps={}", bad.unwrap_or_else(|| "nopanic".into()), steps.join(","))
+        }
+        _ => "bad-request".into(),
+    }
+}
+
+fn kind_of(k: &Path) -> ChangedFileKind {
+    let s = k.to_string_lossy();
+    if s == SCHEMA_FILE {
+        ChangedFileKind::Schema
+    } else if s == SCHEMA_EXTENSION_FILE {
+        ChangedFileKind::SchemaExtension
+    } else {
+        ChangedFileKind::JavaScriptSourceFile
+    }
+}
+
+const RAW_SNIPPETS: &[&str] = &[
+    "{", "}", "(", ")", "`", "\"", "\"\"\"", "@", "$", ":", "!", ".", ",", "\n", " ", "\\", "'", "[", "]", "=", "#", "|", "&",
+    "99999999999999999999", "-", "0", "field ", "entrypoint ", "pointer ", "iso(`", "`)", "type ", "extend type ", "@loadable",
+    "@component", "@updatable", "@exposeField(field: \"", "interface ", "union ", "implements ", "null", "true", "é", "😀", "\u{1}",
+    "\u{feff}", "\u{2028}", "\0", "id", "ID", "__typename", "__link", "__refetch", "asUser", "node", "Query", "Mutation",
+];
+
+fn gen_crash(r: &mut Rng, i: u64) -> Vec<String> {
+    // the share of each stream is fixed by the index so that every run covers all of them
+    match i % 20 {
+        0..=4 => {
+            let p = generate(r, &GenOpts::default());
+            vec![format!("cm\tvalid\t{}", to_wire(&p))]
+        }
+        5 | 6 => {
+            let p = generate(r, &stream_opts("cycle"));
+            vec![format!("cm\tcycle\t{}", to_wire(&p))]
+        }
+        7 => {
+            let p = generate(r, &stream_opts("lwrs"));
+            vec![format!("cm\tlwrs\t{}", to_wire(&p))]
+        }
+        8 => {
+            let p = generate(r, &stream_opts("ptu"));
+            vec![format!("cm\tptu\t{}", to_wire(&p))]
+        }
+        9 | 10 => {
+            let s = *r.pick(&["lnr", "vas", "xtp", "pv", "upv"]);
+            let p = generate(r, &stream_opts(s));
+            vec![format!("co\t{s}\t{}", to_wire(&p))]
+        }
+        11..=13 => {
+            let p = generate(r, &GenOpts::default());
+            match mutate_single_fault(r, &p) {
+                Some((q, _)) => vec![format!("co\tmutant\t{}", to_wire(&q))],
+                None => vec![format!("cm\tvalid\t{}", to_wire(&p))],
+            }
+        }
+        14 | 15 => {
+            let p = generate(r, &GenOpts::default());
+            vec![format!("watch\t{}\t{}", to_wire(&p), r.next() % 100000)]
+        }
+        _ => {
+            let demo = *r.pick(&["pet-demo", "vite-demo", "github-demo"]);
+            let file_idx = if r.chance(1, 3) { r.below(3) } else { r.below(400) };
+            let op = *r.pick(&["ins", "ins", "ins", "del", "rep", "dup", "trunc"]);
+            let off = r.below(60000);
+            let data = if r.chance(3, 4) { r.pick(RAW_SNIPPETS).as_bytes().to_vec() } else { (0..r.range(1, 4)).map(|_| r.below(256) as u8).collect() };
+            vec![format!("raw\t{demo}\t{file_idx}\t{op}\t{off}\t{}", hex(&data))]
+        }
+    }
+}
+
+// ---------------------------------------------------------------------------------------------
+
+fn main() {
+    let engine = std::env::var("HX_ENGINE").unwrap_or_else(|_| "arts".to_string());
+    let gen: Box<dyn Fn(&mut Rng, u64) -> Vec<String>> = match engine.as_str() {
+        "overloads" => Box::new(gen_overloads),
+        "holes" => Box::new(gen_holes),
+        "arts" => Box::new(gen_arts),
+        "det" => Box::new(gen_det),
+        "crash" => Box::new(gen_crash),
+        e => {
+            eprintln!("unknown HX_ENGINE {e}");
+            std::process::exit(2);
+        }
+    };
+    let mut run = move |f: &[&str]| -> String {
+        let r = std::panic::catch_unwind(std::panic::AssertUnwindSafe(|| match f.first().copied().unwrap_or("") {
+            "ovl" | "ovlnc" => run_overloads(f),
+            "hole" => run_holes(f),
+            "arts" | "artsdemo" => run_arts(f),
+            "det" | "detdiag" | "detdup" => run_det(f),
+            "cm" | "co" | "raw" | "watch" => run_crash(f),
+            _ => "bad-request".to_string(),
+        }));
+        r.unwrap_or_else(|_| "panic".to_string())
+    };
+    main_loop(&*gen, &mut run);
+}
